@@ -146,6 +146,20 @@ def run_and_validate(ctx, scenarios, tag, bound=None, batch=12, module="Trace_Ra
         summary["events"] += v.events
         summary["tlc_states"] += v.tlc_states
         summary["tlc_generated"] += v.tlc_generated
+        for sid in v.accepted:
+            for flag in sorted(v.flags.get(sid, ())):
+                s = byid[sid]
+                what = ("property predicate %s (spec/Rapid.tla, PropHolds) fails in the behaviour of the specification that "
+                        "explains the trace of scenario %s (family %s)" % (flag, sid, s.get("meta", {}).get("family")))
+                kf = ctx.known_matching(lambda m: m.get("kind") == "flag" and m.get("flag") == flag)
+                summary.setdefault("flags", {}).setdefault(flag, []).append(sid)
+                if kf:
+                    ctx.known_finding(kf, what)
+                else:
+                    rd = ctx.replay_dir("%s-%s" % (tag, sid))
+                    evs = dict((x[0]["id"], x[1]) for x in chunk)[sid]
+                    _store(rd, ctx.prop, s, evs, extra={"flag": flag})
+                    ctx.violation(rd, what)
         for sid, idx, unmatched, detail in v.rejected:
             s = byid[sid]
             rd = ctx.replay_dir("%s-%s" % (tag, sid))
